@@ -677,7 +677,8 @@ def _pool_map(fn, jobs):
         return [fn(j) for j in jobs]
     n = min(16, os.cpu_count() or 4)
     with multiprocessing.get_context('fork').Pool(n) as pool:
-        return pool.map(fn, jobs, chunksize=max(1, len(jobs) // (n * 8)))
+        # small chunks: the long random circuits sit next to each other in the job list, a large chunk of them is a straggler
+        return pool.map(fn, jobs, chunksize=max(1, min(16, len(jobs) // (n * 8))))
 
 
 def _norm_err(s):
